@@ -216,10 +216,15 @@ inductive Form where
   deriving DecidableEq, Repr, Inhabited
 
 /-- form of the value `get_config()` emits for key `k`, given the form of the stored attribute:
-    `qnoise_factor` held in a `tf.Variable` is exported through `.numpy()` — except by
-    `quantized_linear`, whose `get_config` hands the attribute out as it is -/
-def exportForm (c : Cls) (k : String) (f : Form) : Form :=
-  if k == "qnoise_factor" && f == .variable && c != .quantized_linear then .npScalar else f
+    `qnoise_factor` held in a `tf.Variable` is exported through `.numpy()` by every class that
+    has the option (`quantized_linear` included since the fix round: its `get_config` used to
+    hand the variable out as it was); `post_training_scale` (emitted by `quantized_bits` only) is
+    exported through `np.asarray(...).tolist()`, a python list, whatever it is held in; every
+    other value is emitted in the form it is held in -/
+def exportForm (_c : Cls) (k : String) (f : Form) : Form :=
+  if k == "qnoise_factor" && f == .variable then .npScalar
+  else if k == "post_training_scale" then .literal
+  else f
 
 inductive KerasOutcome where
   | ok                               -- from_config receives the values
